@@ -36,7 +36,7 @@ func fsCall(in ssa.Instruction) string {
 }
 
 func checkC17(c *core.Ctx, l *core.Ledger) {
-	l.Explanation = "Static clauses of C17: (FS-OWN) among all functions reachable from the CLI's main in the gated call graph, file-system mutating calls (os.WriteFile/MkdirAll/Create/OpenFile/Rename/Remove/...) occur only in gen.Generate; (WRITE-LAST) inside gen.Generate no call into the repository (module generation, Walk, the plugin's Generate, mergeFiles/addFile) is reachable after the first file-system call, so every fallible producing step precedes every write; (CONFINE) the written path is filepath.Join(o.OutputDir, key of the files map), the created directory is filepath.Dir of that same path, and OutputDir is tested with filepath.IsAbs on entry; (CONFLICT) every insertion into the files map happens in addFile under the negative edge of a presence test that returns an error, and the plugin fan-out inserts into its merged map only under the same test while holding its lock; (DOTDOT) the plugin wrapper returns success only after the loop that rejects any returned path containing \"..\", and the CLI verifies ancestry of includes on the explicit-root branch. NOT decided: the value of module paths relative to the root for concrete layouts (filepath.Rel semantics), the --output-file option (user-supplied), atomicity of the write loop itself (a failing write after earlier writes succeeded)."
+	l.Explanation = "Static clauses of C17: (FS-OWN) among all functions reachable from the CLI's main in the gated call graph, file-system mutating calls (os.WriteFile/MkdirAll/Create/OpenFile/Rename/Remove/...) occur only in gen.Generate; (WRITE-LAST) inside gen.Generate no call into the repository (module generation, Walk, the plugin's Generate, mergeFiles/addFile) is reachable after the first file-system call, so every fallible producing step precedes every write; (CONFINE) the written path is filepath.Join(o.OutputDir, key of the files map), the created directory is filepath.Dir of that same path, and OutputDir is tested with filepath.IsAbs on entry; (CONFLICT) every insertion into the files map happens in addFile under the negative edge of a presence test that returns an error, and the plugin fan-out inserts into its merged map only under the same test while holding its lock; (DOTDOT) the plugin wrapper returns success only after the loop that rejects any returned path containing \"..\", and the CLI verifies ancestry of includes on the explicit-root branch. (PATH-PREFIX) containment between two paths is never decided by a string prefix test (svc vs svc-common). NOT decided: the value of module paths relative to the root for concrete layouts (filepath.Rel semantics), the --output-file option (user-supplied), atomicity of the write loop itself (a failing write after earlier writes succeeded)."
 	l.RuleText = "one obligation per file-system call site / insertion site / return"
 	l.Assumptions = []string{"filepath.Join cleans its result; a relative path without \"..\" joined to a directory stays beneath it"}
 
@@ -356,6 +356,7 @@ func checkC17(c *core.Ctx, l *core.Ledger) {
 		l.Check(ok && len(callsIn(f, "Walk")) == 1, "DOTDOT", "main.verifyAncestry", c.Rel(f.Pos()), "every module's path relative to the root is rejected when it starts with \"..\"", "verifyAncestry does not reject modules outside the root")
 	}
 	l.Floor("DOTDOT", 3)
+	checkPathPrefix(c, l)
 }
 
 // confinedJoin: v = filepath.Join(o.OutputDir, <key of a map range>).
@@ -484,4 +485,116 @@ func checkGuardedInsertMulti(c *core.Ctx, l *core.Ledger, cl *ssa.Function) {
 		}
 		l.Check(ok2, "CONFLICT", key, c.Rel(in.Pos()), "merged only on the path-not-taken edge, under the fan-out lock", why)
 	})
+}
+
+// checkPathPrefix: containment between two file-system paths is never decided
+// by a string prefix test: "/idl/svc" is a string prefix of "/idl/svc-common"
+// without being its ancestor, so a root computed that way can leave an included
+// file outside it (its relative path starts with ".." and its output escapes
+// the output directory). Flags strings.HasPrefix(a, b) where both operands
+// derive from path-valued sources and b is not a constant.
+func checkPathPrefix(c *core.Ctx, l *core.Ledger) {
+	pathy := func(v ssa.Value) bool {
+		seen := map[ssa.Value]bool{}
+		var walk func(x ssa.Value, d int) bool
+		walk = func(x ssa.Value, d int) bool {
+			if d > 10 || seen[x] {
+				return false
+			}
+			seen[x] = true
+			switch y := x.(type) {
+			case *ssa.Call:
+				if o := core.CalleeObj(y); o != nil && o.Pkg() != nil && (o.Pkg().Path() == "path/filepath" || o.Pkg().Path() == "path") {
+					return true
+				}
+				for _, a := range y.Call.Args {
+					if walk(a, d+1) {
+						return true
+					}
+				}
+			case *ssa.Extract:
+				return walk(y.Tuple, d+1)
+			case *ssa.Phi:
+				for _, e := range y.Edges {
+					if walk(e, d+1) {
+						return true
+					}
+				}
+			case *ssa.UnOp:
+				if fa, ok := y.X.(*ssa.FieldAddr); ok && core.FieldOf(fa) != nil {
+					n := core.FieldOf(fa).Name()
+					if strings.HasSuffix(n, "Path") || strings.HasSuffix(n, "Root") || strings.HasSuffix(n, "Dir") || strings.HasSuffix(n, "Directory") {
+						return true
+					}
+				}
+				if al, ok := y.X.(*ssa.Alloc); ok {
+					for _, r := range *al.Referrers() {
+						if st, ok := r.(*ssa.Store); ok && st.Addr == ssa.Value(al) && walk(st.Val, d+1) {
+							return true
+						}
+					}
+				}
+				if fv, ok := y.X.(*ssa.FreeVar); ok {
+					// a captured variable: look at what the enclosing function stores into it
+					if p := fv.Parent().Parent(); p != nil {
+						found := false
+						core.Instrs(p, func(in ssa.Instruction) {
+							if mc, ok := in.(*ssa.MakeClosure); ok && mc.Fn == ssa.Value(fv.Parent()) {
+								for i, b := range mc.Bindings {
+									if fv.Parent().FreeVars[i] == fv {
+										if al, ok := b.(*ssa.Alloc); ok {
+											for _, r := range *al.Referrers() {
+												if st, ok := r.(*ssa.Store); ok && walk(st.Val, d+1) {
+													found = true
+												}
+											}
+										}
+									}
+								}
+							}
+						})
+						// stores inside the closure itself
+						core.Instrs(fv.Parent(), func(in ssa.Instruction) {
+							if st, ok := in.(*ssa.Store); ok && st.Addr == ssa.Value(fv) && walk(st.Val, d+1) {
+								found = true
+							}
+						})
+						return found
+					}
+				}
+			case *ssa.BinOp:
+				return walk(y.X, d+1) || walk(y.Y, d+1)
+			case *ssa.Slice:
+				return walk(y.X, d+1)
+			}
+			return false
+		}
+		return walk(v, 0)
+	}
+	n := 0
+	for _, f := range c.AllFuncs("", "gen", "internal/plugin") {
+		if c.IsTestFile(f.Pos()) {
+			continue
+		}
+		k := 0
+		core.Instrs(f, func(in ssa.Instruction) {
+			call, ok := in.(*ssa.Call)
+			if !ok || !(core.IsCallTo(call, "strings", "HasPrefix") || core.IsCallTo(call, "strings", "HasSuffix")) {
+				return
+			}
+			n++
+			k++
+			key := fmt.Sprintf("%s:HasPrefix#%d", core.SSAName(f), k)
+			if _, isC := call.Call.Args[1].(*ssa.Const); isC {
+				l.Ok("PATH-PREFIX", key, c.Rel(in.Pos()), "prefix test against a constant")
+				return
+			}
+			if pathy(call.Call.Args[0]) && pathy(call.Call.Args[1]) {
+				l.Bad("PATH-PREFIX", key, c.Rel(in.Pos()), "containment of one path in another is decided by a string prefix test: a sibling directory whose name merely starts with the other's name (svc / svc-common) is taken for a descendant, so the derived root can leave files outside it and their output escapes the output directory")
+				return
+			}
+			l.Ok("PATH-PREFIX", key, c.Rel(in.Pos()), "not a test between two paths")
+		})
+	}
+	l.Units["prefix_tests_scanned"] = n
 }
